@@ -22,11 +22,38 @@ def bank(prog, name):
     return c
 
 
+def _private_helpers(prog, f):
+    """package-level private functions the constructor calls (layout / validation factored out of it)"""
+    out = []
+    for c in astq.func_calls(f):
+        t = prog.resolve(f.module, c.func, f)
+        if isinstance(t, FunctionInfo) and t.cls is None and t.parent is None and t.name.startswith("_") and t.module is f.module:
+            out.append(t.qualname)
+    return out
+
+
 def ctor_eval(prog, name, seed=None, inline=()):
     c = bank(prog, name)
     f = prog.own_method(c, "__init__")
-    ev = SymEval(prog, f, seed=seed or {}, inline=inline).run()
+    ev = SymEval(prog, f, seed=seed or {}, inline=list(inline) + _private_helpers(prog, f)).run()
     return c, f, ev
+
+
+def layout_value(prog, name, f, ev):
+    """E of the tuple of scale points the bank is laid out on: self._vertices for the vertex banks, the sequence the
+    per-filter loop pairs up (zip(E[:-1], E[1:])) for the edge banks"""
+    if name in VERTEX_BANKS:
+        v = ev.env.get(f.params[0] + "._vertices")
+        if v is None:
+            raise AnalysisError("%s.__init__ does not set self._vertices" % name)
+        return v
+    for loop in [n for n in f.body_nodes() if isinstance(n, ast.For) and ev.reached(n)]:
+        it = ev.eval_at(loop, loop.iter)
+        if cc.is_call(it, "zip") and len(it.args) == 3:
+            a, b = it.args[1], it.args[2]
+            if cc.is_call(a, "getitem") and cc.is_call(b, "getitem") and a.args[1] == b.args[1]:
+                return a.args[1]
+    raise AnalysisError("per-filter loop over adjacent edge pairs not found in %s.__init__" % name)
 
 
 def _range_helpers(prog, f):
@@ -77,12 +104,21 @@ def grid():
                 yield {"low_hz": low, "high_hz": high, "sampling_rate": rate}
 
 
-def effective_high(ev):
-    """the hertz value whose scale image is scale_high"""
+def effective_high(ev, layout=None):
+    """(scaling function E, hertz value E whose scale image is the upper end of the layout)"""
     sh = ev.env.get("scale_high")
-    if sh is None or not (sh.op == "call" and sh.args[0] == ".hertz_to_scale" and len(sh.args) == 3):
-        raise AnalysisError("scale_high = scaling_function.hertz_to_scale(<high>) not found")
-    return sh.args[1], sh.args[2]
+    if sh is not None and sh.op == "call" and sh.args[0] == ".hertz_to_scale" and len(sh.args) == 3:
+        return sh.args[1], sh.args[2]
+    if layout is not None:
+        # read it off the layout itself: the points are scale_to_hertz(h2s(low) + (h2s(HIGH) - h2s(low)) / (n + 1) * (k + off))
+        h2s = []
+        for x in S.walk(layout):
+            if x.op == "call" and x.args[0] == ".hertz_to_scale" and len(x.args) == 3 and x not in h2s:
+                h2s.append(x)
+        other = [x for x in h2s if x.args[2] != S.sym("low_hz")]
+        if len(other) == 1:
+            return other[0].args[1], other[0].args[2]
+    raise AnalysisError("the upper end of the scale (hertz_to_scale(<high>)) not found")
 
 
 def loop_body_values(prog, f, loop, names, seed=None):
@@ -237,3 +273,23 @@ def piecewise(stores, pred=None):
     for s_ in reversed(prim):
         val = s_["value"] if val is None else S.cond(s_["guard"], s_["value"], val)
     return val
+
+
+def banks_stateless(ctx, R):
+    """constructors, support / centre properties and response methods of every bank: no memoised helper, no write to
+    class- or module-level state (the layout and the responses depend on the constructor's arguments alone)"""
+    from .c20 import no_shared_state
+    prog = ctx.prog
+    n = 0
+    for name in BANKS:
+        c = bank(prog, name)
+        for fi in prog.functions.values():
+            if fi.cls is c and fi.parent is None:
+                n += 1
+                no_shared_state(ctx, R, fi, "%s.%s" % (name, fi.name), allow_self=(fi.name == "__init__"))
+    fm = prog.module("filters")
+    for fi in prog.functions.values():
+        if fi.module is fm and fi.cls is None and fi.parent is None and fi.name.startswith("_"):
+            n += 1
+            no_shared_state(ctx, R, fi, "filters.%s" % fi.name)
+    ctx.floor(R, n, 30)
